@@ -137,3 +137,44 @@ prop('C04',
                  "exploration with directed boundary sweeps."),
      technique="differential property-based testing / fuzzing against an independent reference decoder+encoder (rapidcheck, libFuzzer), ASan/UBSan",
      design_ref="DESIGN.md section 3, C04")
+
+prop('C01',
+     quick=dict(sweep=True, pbt=(4000, 900, 10), fuzz=(8000, 900, 4)),
+     thorough=dict(sweep=True, pbt=(200000, 2500, 11), fuzz=(400000, 2500, 4), stage_timeout=3400),
+     floor=dict(quick=5000, thorough=100000), alloc_cap_mb=64,
+     rule=("File sets decoded from a tape: 0..12 files (thorough ..40), sizes from {0,1,2,3,4,5..64,131071..131075,262143..262146,<=40000 (thorough 300000),<300}, pseudo-random "
+           "contents, names of 1..24 characters over letters of both cases, digits and the punctuation _^[]`-.,+=@#~!(){} and space (distinct ignoring case), placed in ./in/, "
+           "./in/d0/, ./in/d1/sub/, listed in a tape-chosen permutation and spelling (x, ./x, d//x, d/./x, absolute); output path spelled five ways, pre-existing in half the cases. "
+           "Oracle: archive reopened with VolFile lists n members in reference (_stricmp) order of the final path components with exact sizes and the uncompressed kind; member "
+           "streams drained with tape-chosen read sizes, ExtractFile by case-varied name and ExtractAllFiles all return the input bytes; Contains/GetIndex succeed in three case "
+           "variants; inputs unmodified. One case in eight lists two inputs equal ignoring case (same or different directories), one in eight lets the output path name an input "
+           "up to letter case and one leading './' (plain and directory-qualified spellings, existing and non-existing targets): CreateArchive must throw and every pre-existing "
+           "file must be byte-identical afterwards / no new output may exist. Sweep: empty set; all 16 (size mod 4 x name-table mod 4) residue pairs x 1..3 files x small/128 KiB "
+           "x 4 output spellings; every size in [131070,131074] and [262142,262146]. Non-trivial = >=2 members of which >=1 non-empty, or any refusal case; distinct = hash of "
+           "names, sizes and spellings."),
+     sweep_what="all residue pairs of (file size mod 4, name table mod 4) with 1-3 files, sizes around one and two 128 KiB copy chunks, empty set",
+     assumptions=["Linux (case-sensitive) file system: an output differing from an input only in case is a different file, yet must still be refused per the statement", "names are ASCII"],
+     title="VOL pack, reopen, extract returns exactly the files that went in",
+     level_text=("Round-trip and refusal properties over generated file sets with an independent ordering model and byte-exact comparison, under ASan/UBSan; exploration."),
+     technique="round-trip property-based testing (rapidcheck + libFuzzer on structured tapes) with residue-class sweeps",
+     design_ref="DESIGN.md section 3, C01")
+
+prop('C02',
+     quick=dict(sweep=True, pbt=(8000, 900, 10), fuzz=(16000, 900, 4)),
+     thorough=dict(sweep=True, pbt=(400000, 2000, 11), fuzz=(1000000, 2000, 4), stage_timeout=3400),
+     floor=dict(quick=10000, thorough=200000), alloc_cap_mb=64,
+     rule=("(i) One case in three packs a generated file set (generator of C01) with the library and hands the raw bytes to an independent strict VOL decoder that asserts, field by "
+           "field: 'VOL ' length tiles the header (= padded tables + 24) and the first block follows it; 'volh' length 0; 'vols' = u32 actual length + NUL-terminated names in "
+           "index order at the recorded offsets + zero pad to 4; 'voli' = 14-byte entries + zero pad; every section word carries the 4-byte-padding flag; block offsets 4-aligned, "
+           "contiguous, VBLK length == entry size, zero padded, last block ends at EOF; names strictly ascending case-insensitively and an actual binary search finds each. "
+           "(ii) Otherwise an independent encoder emits an archive from a tape: 0..10 members (names as C01, sorted), random or LZH-compressed payloads (encoded by the reference "
+           "LZH encoder; index size = uncompressed length), 0..5 unused trailing index slots (name offset 0xFFFFFFFF, arbitrary other fields), optional extra zero words after the "
+           "name table, optionally (class beta) an index length that also covers 1..13 padding bytes. VolFile must list the same names, sizes, kinds, stream exactly the stored "
+           "payloads and extract the expanded bytes; for class beta a clean refusal at open is also accepted. Sweep: 64 written residue combinations; 5 member counts x 4 unused-slot "
+           "counts x 14 index-length extras x 2 paddings. Non-trivial = >=1 member; distinct = hash of names/payloads/options."),
+     sweep_what="written: (size mod 4) x (table mod 4) x 0..3 files; read: 0..4 members x 0..3 unused slots x 0..13 extra index bytes x 0..1 name pad words",
+     assumptions=["an index section whose length is not a multiple of the entry size is of arguable conformance: same listing or clean refusal accepted (memory safety on it is C05)"],
+     title="Written VOLs obey the VOL format; format-conforming VOLs are read back",
+     level_text=("Differential validation in both directions against an independent encoder and strict decoder of the VOL format over generated archives, under ASan/UBSan; exploration."),
+     technique="differential property-based testing against an independent format encoder/strict decoder (rapidcheck + libFuzzer), configuration sweep",
+     design_ref="DESIGN.md section 3, C02")
